@@ -8,6 +8,7 @@ use crate::check::constrain::unify::ty::unify_type;
 use crate::check::constrain::Unified;
 use crate::check::context::Context;
 use crate::check::name::ContainsTemp;
+use crate::parse::ast::Node;
 
 /// Unifies all constraints.
 ///
@@ -64,6 +65,13 @@ pub fn unify_link(
             | (Type { .. }, Function { .. })
             | (Access { .. }, _)
             | (_, Access { .. }) => unify_function(constraint, constraints, finished, ctx, total),
+
+            // the wildcard stands for no value in particular: it takes no type and passes none on
+            (Expression { ast }, _) | (_, Expression { ast })
+                if matches!(ast.node, Node::Underscore) =>
+            {
+                unify_link(constraints, finished, ctx, total)
+            }
 
             (Expression { .. }, _) => {
                 sub(constraints, right, left, count, total)?;
